@@ -43,7 +43,7 @@ fn main() {
         .map(|l| l[1].clone())
         .expect("mode line");
     match mode.as_str() {
-        "summarize" => summarize::run(&lines),
+        "summarize" | "events" => summarize::run(&lines),
         m => panic!("unknown mode {m}"),
     }
 }
